@@ -110,6 +110,30 @@ def _same(a, b):
 
 
 class _Shape(ast.NodeTransformer):
+    def __init__(self, ref_tests=None):
+        self.ref_tests = ref_tests or {}
+        self.prefix = ''
+        self.tests = ()
+
+    def _scope(self, node, is_func):
+        saved = (self.prefix, self.tests)
+        q = self.prefix + node.name
+        self.prefix = q + '.'
+        if is_func:
+            self.tests = self.ref_tests.get(q, ())
+        node = self.generic_visit(node)
+        self.prefix, self.tests = saved
+        return node
+
+    def visit_FunctionDef(self, node):
+        return self._scope(node, True)
+
+    def visit_AsyncFunctionDef(self, node):
+        return self._scope(node, True)
+
+    def visit_ClassDef(self, node):
+        return self._scope(node, False)
+
     def _strip(self, body):
         out = [st for st in body if not is_log_stmt(st)]
         if not out and body:
@@ -133,6 +157,13 @@ class _Shape(ast.NodeTransformer):
             st = out[i]
             if isinstance(st, ast.If) and st.orelse:
                 if _terminates(st.body):
+                    if _terminates(st.orelse) and self.tests and ast.unparse(st.test) not in self.tests:
+                        # both arms leave the block: either may be spelled as the guard; keep the spelling the reference has
+                        import copy
+                        alt = negate(copy.deepcopy(st.test))
+                        if ast.unparse(alt) in self.tests:
+                            st.test = alt
+                            st.body, st.orelse = st.orelse, st.body
                     rest, st.orelse = st.orelse, []
                     out[i + 1:i + 1] = rest
                 elif _terminates(st.orelse):
@@ -526,11 +557,16 @@ def _undo_new_temps(f, known):
     return changed
 
 
+def tests_of(f):
+    return sorted(set(ast.unparse(n.test) for n in own_nodes(f) if isinstance(n, ast.If)))
+
+
 def canonicalise(tree, rel):
-    tree = _Shape().visit(tree)
+    rc = reference_compares().get(rel, {})
+    tree = _Shape(dict((q, set(v.get('tests', ()))) for q, v in rc.items())).visit(tree)
     ast.fix_missing_locations(tree)
     ref = reference().get(rel, {})
-    refc = reference_compares().get(rel, {})
+    refc = dict((q, v['cmp']) for q, v in rc.items() if v.get('cmp'))
     reff = set(reference().get('__functions__', {}).get(rel, []))
     renamed = 0
     if ref or refc or reff:
